@@ -36,6 +36,7 @@ static dop_t ops[MAXDOPS]; static int nops;
 static int W, nfiles; static char fnames[50][24];
 static long cnt_kind[4]; static uint64_t last_len; static int last_worker; static long hook_calls, multi_worker;
 static int workers_seen[64];
+static int g_defer;
 
 static int hook_interval(dr_dag_node * n) {
   int k = n->info.kind;
@@ -85,26 +86,74 @@ static void gen_task(rd_t * r, int depth) {
   push(OP_END, r);
 }
 
-/* ---------------- serial simulator + oracle ---------------- */
+/* ---------------- simulator + oracle ----------------
+   One OS thread plays all workers.  A task that calls create / other / wait is suspended between the
+   recorder's enter_X and return_from_X calls; in such a window its worker (and any other) may run other
+   tasks.  A created child is either run at once inside the create window (child first, as a work-first
+   scheduler does) or left pending and run in a later window of the same section: a later create or
+   other window (the child ends before the parent reaches its wait) or the wait window itself (the child
+   ends after the parent entered the wait: a "late" child, whose end edge releases the continuation). */
 typedef struct { uint64_t work, cp; } wc_t;
+typedef struct { dr_dag_node * c; int pc0, late; uint64_t seq_at; dop_t * o; } pend_t;
 static int pc;
+static int task_end[MAXDOPS];   /* for a CREATE at i: index just after the child's END */
+static long n_deferred, n_late;
+static int skip_task(int i);
+static int skip_section(int i) {
+  i++;
+  for (;;) {
+    if (ops[i].op == OP_CREATE) { int e = skip_task(i + 1); task_end[i] = e; i = e; }
+    else if (ops[i].op == OP_SECTION) i = skip_section(i);
+    else if (ops[i].op == OP_OTHER) i++;
+    else if (ops[i].op == OP_WAIT) return i + 1;
+    else mt_fail("simulator: malformed section at %d", i);
+  }
+}
+static int skip_task(int i) {
+  for (;;) {
+    if (ops[i].op == OP_SECTION) i = skip_section(i);
+    else if (ops[i].op == OP_OTHER) i++;
+    else if (ops[i].op == OP_END) return i + 1;
+    else mt_fail("simulator: malformed task at %d", i);
+  }
+}
+static unsigned defer_mode(const dop_t * o) { return (o->wsel * 7u + o->fsel * 13u + o->wsel2 * 3u + (o->burn >> 3)) % 5u; }   /* 0,1,2: child first; 3: pending, a later window; 4: pending until the wait window */
 static wc_t exec_task(int * w, int is_root);
+static void run_child(pend_t * p, int cur_w, wc_t * r, uint64_t * best) {
+  int save = pc; pc = p->pc0;
+  int wc = pick_worker(cur_w, p->o->wsel);
+  dr_start_task__(p->c, fname(p->o), 200 + p->pc0, wc);
+  wc_t ch = exec_task(&wc, 0);
+  pc = save;
+  r->work += ch.work; if (p->seq_at + ch.cp > *best) *best = p->seq_at + ch.cp;
+}
+/* run up to k of the pending children that are not reserved for the wait window (oldest first) */
+static void run_pending(pend_t * pend, int * np, int k, int all, int cur_w, wc_t * r, uint64_t * best) {
+  int j = 0;
+  for (int i = 0; i < *np; i++) {
+    if (all || (k > 0 && !pend[i].late)) { run_child(&pend[i], cur_w, r, best); k--; }
+    else pend[j++] = pend[i];
+  }
+  *np = j;
+}
 static wc_t exec_section(int * w) {
   dop_t * so = &ops[pc++];
   wc_t r = { 0, 0 }; uint64_t seq = 0, best = 0;
+  pend_t pend[16]; int np = 0;
   if (so->explicit_begin) dr_begin_section__(*w);
   for (;;) {
     dop_t * o = &ops[pc];
     if (o->op == OP_CREATE) {
+      int at = pc;
       pc++;
       burn(o->burn);
       dr_dag_node * c = 0;
       dr_dag_node * t = dr_enter_create_task__(&c, fname(o), 100 + pc, *w);
       seq += last_len; r.work += last_len;
-      int wc = pick_worker(*w, o->wsel);
-      dr_start_task__(c, fname(o), 200 + pc, wc);
-      wc_t ch = exec_task(&wc, 0);
-      r.work += ch.work; if (seq + ch.cp > best) best = seq + ch.cp;
+      unsigned dm = g_defer ? defer_mode(o) : 0;
+      pend_t me = { c, pc, dm == 4, seq, o };
+      if (dm >= 3 && np < 16) { pend[np++] = me; n_deferred++; pc = task_end[at]; run_pending(pend, &np, (o->wsel2 >> 5) & 1, 0, *w, &r, &best); }
+      else { run_child(&me, *w, &r, &best); pc = task_end[at]; run_pending(pend, &np, (o->wsel2 >> 5) & 1, 0, *w, &r, &best); }
       *w = pick_worker(*w, o->wsel2);
       dr_return_from_create_task__(t, fname(o), 300 + pc, *w);
     } else if (o->op == OP_SECTION) {
@@ -115,6 +164,7 @@ static wc_t exec_section(int * w) {
       burn(o->burn);
       dr_dag_node * t = dr_enter_other__(fname(o), 400 + pc, *w);
       seq += last_len; r.work += last_len;
+      run_pending(pend, &np, (o->wsel2 >> 5) & 3, 0, *w, &r, &best);
       *w = pick_worker(*w, o->wsel);
       dr_return_from_other__(t, fname(o), 500 + pc, *w);
     } else if (o->op == OP_WAIT) {
@@ -122,6 +172,8 @@ static wc_t exec_section(int * w) {
       burn(o->burn);
       dr_dag_node * t = dr_enter_wait_tasks__(fname(o), 600 + pc, *w);
       seq += last_len; r.work += last_len;
+      n_late += np;
+      run_pending(pend, &np, 0, 1, *w, &r, &best);
       *w = pick_worker(*w, o->wsel);
       dr_return_from_wait_tasks__(t, fname(o), 700 + pc, *w);
       r.cp = seq > best ? seq : best;
@@ -349,13 +401,15 @@ static void run_dag(mt_case * c, int prop) {
   nfiles = rd_range(r, 1, 50);
   for (int i = 0; i < nfiles; i++) snprintf(fnames[i], sizeof fnames[i], "src_%d.c", i * 7 + 1);
   nops = 0; gen_task(r, 0);
+  skip_task(0);
+  g_defer = (b0 >> 3) % 3 != 0;   /* one case in three keeps the serial child-first order throughout */
   int nsec = 0, ncreate = 0, nother = 0;
   for (int i = 0; i < nops; i++) { if (ops[i].op == OP_SECTION) nsec++; if (ops[i].op == OP_CREATE) ncreate++; if (ops[i].op == OP_OTHER) nother++; }
   mt_desc("C%d dag: W=%d program: %d ops (%d sections, %d creates, %d others), %d file names; options collapse_max=%llu uncollapse_min=%llu collapse_max_count=%ld node_count_target=%ld prune_threshold=%ld chk=%d\n prog:",
           prop, W, nops, nsec, ncreate, nother, nfiles, o.collapse_max, o.uncollapse_min, o.collapse_max_count, o.node_count_target, o.prune_threshold, o.chk_level);
   for (int i = 0; i < nops && i < 120; i++) mt_desc("%s", (const char *[]){ "(", "C", "o", ")w", "E" }[ops[i].op]);
-  mt_desc("\n");
-  mt_hash(c->prog.p, c->prog.pos); mt_hash_u(b0 % 8);
+  mt_desc("\n schedule: %s\n", g_defer ? "children run child-first, in a later window of the creating section, or after the parent entered its wait (generated per create)" : "serial child-first");
+  mt_hash(c->prog.p, c->prog.pos); mt_hash_u(b0 % 8 + 8 * (unsigned)g_defer);
   mt_flush_early();
   char dir[128], prefix[160], dagp[200], statp[200];
   snprintf(dir, sizeof dir, "/tmp/mtdag.%d", (int)getpid()); mkdir(dir, 0700);
@@ -412,7 +466,8 @@ static void run_dag(mt_case * c, int prop) {
     unlink(dagp2); unlink(dagp3); unlink(statp3);
   }
   if (!getenv("MT_DAG_DEBUG")) { unlink(dagp); unlink(statp); rmdir(dir); }
-  mt_stat("intervals", hook_calls); mt_stat("materialized_nodes", d.n); mt_stat("logical_nodes", logical_all); mt_stat("edges", d.m); mt_stat("workers_used", multi_worker);
+  mt_stat("intervals", hook_calls); mt_stat("materialized_nodes", d.n); mt_stat("logical_nodes", logical_all); mt_stat("edges", d.m); mt_stat("workers_used", multi_worker); mt_stat("deferred_children", n_deferred); mt_stat("late_children", n_late);
+  if (n_deferred > n_late) mt_label("deferred_child"); if (n_late) mt_label("late_child");
   if (contracted) mt_label("contracted"); if (d.n == 1) mt_label("fully_collapsed"); if (multi_worker >= 2) mt_label("multi_worker"); if (nother) mt_label("other_intervals");
   if (o.node_count_target) mt_label("node_count_target"); if (o.collapse_max_count) mt_label("collapse_max_count"); if (nfiles > 8) mt_label("many_file_names");
   mt_nontrivial(contracted && multi_worker >= 2);
